@@ -61,7 +61,7 @@ func (c C13Case) refText() string {
 	return d.Text()
 }
 
-var c13Names = []string{"a", "b", "c", "d", "exec_path", "lib"}
+var c13Names = []string{"a", "ab", "c", "HOME", "HOMEDIRS", "exec_path", "lib", "lib_dirs"} // with names that are prefixes of other names
 var c13Literals = []string{"/x", "/usr/{bin,sbin}", "/lib{,64}", "/opt", "foo", "*-linux-gnu*", "[0-9]", "/", "/y/", "bar.so", "/{,usr/}bin", ""}
 
 // genC13Value draws a value of 1-4 parts. sizes holds the number of expansions
